@@ -7,6 +7,9 @@ namespace sim {
 static const Part kParts[] = {
 	{"C12", "stream-actors", 60000, 3000000},
 	{"C13", "stream-actors", 40000, 2000000},
+	{"C14", "writer-actors", 40000, 2000000},
+	{"C14", "copy-matrix", 4000, 200000},
+	{"C14", "filewriter-matrix", 300, 20000},
 };
 
 std::vector<Part> suiteFor(const std::string& prop) {
